@@ -53,6 +53,9 @@ enum Pred {
 }
 #[derive(Clone, Copy, Debug)]
 enum Op {
+    /// get_or_create through ONE static, not-yet-hashed Key object shared by all threads (what the macros' per-call-site
+    /// statics are): equal to key 0/1
+    GocShared(Kind),
     Goc(Kind, usize),
     Get(Kind, usize),
     Del(Kind, usize),
@@ -132,7 +135,19 @@ fn model_listing(m: &Model, kind: Kind) -> Vec<(String, usize)> {
 
 /// apply one op to the real registry; returns a description of its result
 fn apply_real(reg: &Registry<Key, Counting>, op: Op, k3: &str) -> String {
+    apply_real_shared(reg, op, k3, None)
+}
+fn apply_real_shared(reg: &Registry<Key, Counting>, op: Op, k3: &str, shared: Option<&Key>) -> String {
     match op {
+        Op::GocShared(kind) => {
+            let k = shared.expect("shared key");
+            let id = match kind {
+                Kind::C => reg.get_or_create_counter(k, |s| s.0),
+                Kind::G => reg.get_or_create_gauge(k, |s| s.0),
+                Kind::H => reg.get_or_create_histogram(k, |s| s.0),
+            };
+            format!("id{}", id)
+        }
         Op::Goc(kind, i) => {
             let k = mk_key(i, k3);
             let id = match kind {
@@ -189,6 +204,7 @@ fn apply_real(reg: &Registry<Key, Counting>, op: Op, k3: &str) -> String {
 
 fn apply_model(m: &mut Model, next_id: &mut usize, op: Op, k3: &str) -> String {
     match op {
+        Op::GocShared(kind) => apply_model(m, next_id, Op::Goc(kind, 1), k3),
         Op::Goc(kind, i) => {
             let c = canon(&mk_key(i, k3));
             let id = *m.entry((kind, c)).or_insert_with(|| {
@@ -254,7 +270,7 @@ fn e3(ctx: &Ctx, res: &mut PartResult, depth: usize, first: Option<usize>) {
             let mut bad: Option<(&str, String)> = None;
             if real != want {
                 let sig = match op {
-                    Op::Goc(..) => "get-or-create-wrong-storage",
+                    Op::Goc(..) | Op::GocShared(..) => "get-or-create-wrong-storage",
                     Op::Get(..) => "get-wrong-storage",
                     Op::Del(..) => "delete-reports-untruthfully",
                     Op::Retain(..) => "retain-visits-wrong-entries",
@@ -319,6 +335,7 @@ struct S {
     made: Arc<AtomicUsize>,
     log: Log<Ev>,
     k3: String,
+    shared: &'static Key,
 }
 
 fn e1_scenario(name: &str, threads: Vec<Vec<Op>>) -> Scenario<S> {
@@ -334,7 +351,7 @@ fn e1_scenario(name: &str, threads: Vec<Vec<Op>>) -> Scenario<S> {
         bodies.push(body(move |s: &S| {
             for (id, op) in &ops {
                 s.log.push(Ev::Call(*id));
-                let r = apply_real(&s.reg, *op, &s.k3);
+                let r = apply_real_shared(&s.reg, *op, &s.k3, Some(s.shared));
                 s.log.push(Ev::Ret(*id, r));
             }
         }));
@@ -343,7 +360,7 @@ fn e1_scenario(name: &str, threads: Vec<Vec<Op>>) -> Scenario<S> {
         name: name.into(),
         setup: Box::new(|| {
             let made = Arc::new(AtomicUsize::new(0));
-            S { reg: Registry::new(Counting(made.clone())), made, log: Log::new(), k3: find_k3() }
+            S { reg: Registry::new(Counting(made.clone())), made, log: Log::new(), k3: find_k3(), shared: Box::leak(Box::new(Key::from_static_parts("m", &L_AB))) }
         }),
         bodies,
         check: Box::new(move |s, _| {
@@ -372,7 +389,8 @@ fn e1_scenario(name: &str, threads: Vec<Vec<Op>>) -> Scenario<S> {
             let apply = |st: &St, i: usize| -> Option<St> {
                 let mut st = st.clone();
                 match flat2[i] {
-                    Op::Goc(kind, ki) => {
+                    Op::Goc(kind, _) | Op::GocShared(kind) => {
+                        let ki = if let Op::Goc(_, ki) = flat2[i] { ki } else { 1 };
                         let c = canon(&mk_key(ki, &k3));
                         let got: usize = result[i].trim_start_matches("id").parse().ok()?;
                         match st.m.get(&(kind, c.clone())) {
@@ -406,7 +424,7 @@ fn e1_scenario(name: &str, threads: Vec<Vec<Op>>) -> Scenario<S> {
                 return fail("registry-history-not-linearizable", format!("no sequential order of the single-map reference explains the results {:?} of {:?}", result, flat));
             }
             // at quiescence: constructions == distinct ids handed out, listing == what get returns
-            let ids: std::collections::BTreeSet<String> = flat.iter().zip(result.iter()).filter(|(o, _)| matches!(o, Op::Goc(..))).map(|(_, r)| r.clone()).collect();
+            let ids: std::collections::BTreeSet<String> = flat.iter().zip(result.iter()).filter(|(o, _)| matches!(o, Op::Goc(..) | Op::GocShared(..))).map(|(_, r)| r.clone()).collect();
             if s.made.load(Ordering::SeqCst) != ids.len() {
                 return fail("storage-constructed-more-than-once", format!("{} storages constructed but only {} distinct ones were ever handed out", s.made.load(Ordering::SeqCst), ids.len()));
             }
@@ -430,19 +448,23 @@ fn parts(ctx: &Ctx) -> Vec<PartSpec> {
         v.push(PartSpec::new("e3-d4-1shard", json!({"depth": 4})).cpus("0").budget(45.0));
         v.push(PartSpec::new("e3-d3-2shards", json!({"depth": 3})).cpus("0,1"));
         v.push(PartSpec::new("e3-d3-16shards", json!({"depth": 3})));
-        for s in ["create-create-delete", "create-retain-clear", "two-kinds-two-keys"] {
+        for s in ["create-create-delete", "create-retain-clear", "two-kinds-two-keys", "shared-static-key"] {
             v.push(PartSpec::new(&format!("e1-{}-pb2", s), json!({"e1": s, "pb": 2})).cpus("0"));
         }
+        // with 16 shards a wrong hash also selects a wrong shard
+        v.push(PartSpec::new("e1-shared-static-key-pb2-16shards", json!({"e1": "shared-static-key", "pb": 2})));
+        v.push(PartSpec::new("e1-create-create-delete-pb1-16shards", json!({"e1": "create-create-delete", "pb": 1})));
     } else {
         for f in 0..n {
             v.push(PartSpec::new(&format!("e3-d5-1shard-first{}", f), json!({"depth": 5, "first": f})).cpus(&format!("{}", f % 16)).budget(1500.0));
         }
         v.push(PartSpec::new("e3-d4-2shards", json!({"depth": 4})).cpus("0,1").budget(1500.0));
         v.push(PartSpec::new("e3-d4-16shards", json!({"depth": 4})).budget(1500.0));
-        for s in ["create-create-delete", "create-retain-clear", "two-kinds-two-keys"] {
+        for s in ["create-create-delete", "create-retain-clear", "two-kinds-two-keys", "shared-static-key"] {
             v.push(PartSpec::new(&format!("e1-{}-pb3", s), json!({"e1": s, "pb": 3})).cpus("1").budget(1500.0));
         }
         v.push(PartSpec::new("e1-create-create-delete-pb2-16shards", json!({"e1": "create-create-delete", "pb": 2})).budget(1500.0));
+        v.push(PartSpec::new("e1-shared-static-key-pb3-16shards", json!({"e1": "shared-static-key", "pb": 3})).budget(1500.0));
     }
     v
 }
@@ -454,6 +476,7 @@ fn run(ctx: &Ctx, spec: &PartSpec) -> PartResult {
         use Kind::*;
         let scn = match s {
             "create-create-delete" => e1_scenario("t0 goc(C,k1) x2 | t1 goc(C,k1'), get(C,k1) | t2 del(C,k1), goc(C,k1)", vec![vec![Op::Goc(C, 0), Op::Goc(C, 0)], vec![Op::Goc(C, 1), Op::Get(C, 0)], vec![Op::Del(C, 0), Op::Goc(C, 0)]]),
+            "shared-static-key" => e1_scenario("t0 goc(C,&SHARED), get(C,k1) | t1 goc(C,&SHARED) x2 | t2 goc(C,k1 owned), goc(G,&SHARED)  (SHARED = one static key object whose hash is not memoised yet)", vec![vec![Op::GocShared(C), Op::Get(C, 0)], vec![Op::GocShared(C), Op::GocShared(C)], vec![Op::Goc(C, 0), Op::GocShared(G)]]),
             "create-retain-clear" => e1_scenario("t0 goc(C,k1), goc(C,k3) | t1 retain(C,keep k1), goc(C,k1') | t2 clear, get(C,k1)", vec![vec![Op::Goc(C, 0), Op::Goc(C, 3)], vec![Op::Retain(C, Pred::KeepK1), Op::Goc(C, 1)], vec![Op::Clear, Op::Get(C, 0)]]),
             _ => e1_scenario("t0 goc(C,k1), goc(G,k1) | t1 goc(G,k1'), del(C,k1') | t2 goc(C,k2), visit(C)", vec![vec![Op::Goc(C, 0), Op::Goc(G, 0)], vec![Op::Goc(G, 0), Op::Del(C, 1)], vec![Op::Goc(C, 2), Op::Visit(C)]]),
         };
